@@ -28,7 +28,8 @@ var recRelay = ev.New("C11", "relay-scenarios",
 		"tour:name-to-ip", "tour:ip-to-name", "tour:same-name-other-port", "drop-first:sendmmsg", "tunnel-target-only",
 		"garbage-first-then-valid-same-socket", "garbage-first:no", "garbage-first:sendmmsg",
 		"relay-switch:ss2022:sendmmsg", "relay-switch:ss2022:no", "relay-switch:nat:sendmmsg", "relay-switch:nat:no",
-		"burst-with-unsendable:sendmmsg", "burst-with-unsendable:no")
+		"burst-with-unsendable:sendmmsg", "burst-with-unsendable:no",
+		"backlog-exceeds-relay-batch:sendmmsg", "send-channel-overflow:no", "send-channel-overflow:sendmmsg")
 
 func workDir(t interface{ TempDir() string }) string {
 	if d := os.Getenv("VERIF_WORK"); d != "" {
@@ -71,7 +72,11 @@ func checkPlan(t interface {
 		first := out.liveMiss
 		out = runPlan(p, dir)
 		if out.setupErr == nil && out.violation == "" && len(out.liveMiss) > 0 {
-			out.violation = fmt.Sprintf("SIG=C11/paced-no-reply paced datagrams got no echo in two runs of the scenario; first run: %v; second run: %v", first, out.liveMiss)
+			sig, what := "paced-no-reply", "paced datagrams got no echo"
+			if strings.HasPrefix(first[0], "backlog-datagram-lost") && strings.HasPrefix(out.liveMiss[0], "backlog-datagram-lost") {
+				sig, what = "backlog-datagram-lost", "datagrams that fitted the send channel never reached their destination"
+			}
+			out.violation = fmt.Sprintf("SIG=C11/%s %s in two runs of the scenario; first run: %v; second run: %v", sig, what, first, out.liveMiss)
 		}
 	}
 	done()
@@ -204,6 +209,16 @@ func fixedPlans() []*plan {
 				{A: []planOp{{Kind: "paced", Dest: 2, Alt: 2, N: 1}, {Kind: "freshburst", Dest: 2, Alt: 5, N: 30, Fill: 64}}, B: []planOp{{Kind: "freshburst", Dest: 2, Alt: 5, N: 8}}},
 			}}
 	}
+	// the resolver holds the answer for a name: the session's uplink waits while k more datagrams arrive
+	backlogPlan := func(seed uint64, server, batch string, relayBatch, capacity, k int) *plan {
+		d := append(dests(), planDest{Sock: 2, Name: true, Gated: true}, planDest{Sock: 0, Name: true, Gated: true})
+		return &plan{Seed: seed, ServerProto: server, BatchMode: batch, RelayBatch: relayBatch, SendChanCap: capacity, ClientProto: "direct", Topology: "direct", NSock: 3, Dests: d,
+			Sessions: []planSession{
+				{A: []planOp{{Kind: "paced", Dest: 0, Alt: 0, N: 1}, {Kind: "backlog", Dest: 1, Alt: 5, Prime: 3, N: k, Fill: 20}},
+					B: []planOp{{Kind: "backlog", Dest: 0, Alt: 5, Prime: 4, N: k + 7, Fill: 400}}},
+				{A: []planOp{{Kind: "paced", Dest: 2, Alt: 2, N: 1}, {Kind: "backlog", Dest: 2, Alt: 6, Prime: 4, N: k / 2, Fill: 0}}, B: []planOp{{Kind: "paced", Dest: 2, Alt: 3, N: 2}}},
+			}}
+	}
 	ss := "2022-blake3-aes-128-gcm"
 	return []*plan{
 		tourPlan(1, "socks5", "no", "direct", "direct", "servfail"),
@@ -230,6 +245,13 @@ func fixedPlans() []*plan {
 		unsendablePlan(42, "none", "sendmmsg"),
 		unsendablePlan(43, ss, "sendmmsg"),
 		unsendablePlan(44, "socks5", "no"),
+		backlogPlan(51, "socks5", "sendmmsg", 4, 0, 40),
+		backlogPlan(52, "none", "sendmmsg", 16, 64, 60),
+		backlogPlan(53, ss, "sendmmsg", 8, 0, 50),
+		backlogPlan(54, "socks5", "sendmmsg", 8, 64, 100),
+		backlogPlan(55, "socks5", "no", 0, 64, 100),
+		backlogPlan(56, "none", "no", 0, 64, 90),
+		backlogPlan(57, ss, "no", 0, 64, 100),
 	}
 }
 
